@@ -1,7 +1,407 @@
-// c09_badarg.hpp — stage 2 of C09 (stub, filled in later)
+// c09_badarg.hpp — stage 2 of C09: one public call with a bad argument from a fixed start state, in a forked child,
+// with a dump of every entity before and after.
+//
+// case line:   <setup>|<call>
+//   setup  = commands separated by ';' : harness/common/script.hpp commands and the service commands below
+//   call   = ONE command (script.hpp or service command)
+// output line: <result token> <same|CHANGED> issues=<issue count of the service the call went to, or ->
+//   (a crash of the library gives CRASH(sig) / CRASH(exit99) for the whole line: forkrun.hpp)
+//
+// Service commands (objects are script slots or `null`; s<hex> strings; decimal indices, -1 = SIZE_MAX).
+// The services live beside the interpreter; `svc` creates them.
+//   svc                                   create Annotator Importer Analyser Validator Printer Generator (+ profile)
+//   ann_setmodel M                        an_analyse M   (keeps the AnalyserModel)     ev_create V   (keeps it)
+//   an_addext                             adds the kept external variable to the analyser
+//   ann_<getter> sID [idx]                getter in item component componentencapsulation encapsulation variable reset model
+//                                         importsource units mapvariables connection unitsitem testvalue resetvalue
+//   ann_assignallids M | ann_clearallids M | ann_isunique s | ann_items s | ann_itemcount s | ann_ids | ann_duplicateids
+//   ann_assignid_model M type | ann_assignid_component C type | ann_assignid_importsource I | ann_assignid_reset R type
+//   ann_assignid_units U | ann_assignid_unitsitem U idx | ann_assignid_variable V | ann_assignid_pair V V type
+//   ann_assignid_vv V V type | ann_assignid_unit U idx | ann_assignid_any_{variable V|component C|null}
+//   imp_flatten M | imp_resolve M s | imp_library_n s | imp_library_i idx | imp_key idx | imp_addmodel M s
+//   imp_replacemodel M s | imp_clearimports M | imp_addimportsource I | imp_importsource idx
+//   imp_removeimportsource_i idx | imp_removeimportsource_p I | imp_hasimportsource I
+//   an_addext_null | an_addext_v V | an_removeext_i idx | an_removeext_m M s s | an_removeext_p V | an_containsext_m M s s
+//   an_containsext_p V | an_ext_i idx | an_ext_m M s s
+//   ev_create_tmp V | ev_adddep V | ev_removedep_i idx | ev_removedep_m M s s | ev_removedep_p V | ev_containsdep_m M s s
+//   ev_containsdep_p V | ev_dep_i idx | ev_dep_m M s s
+//   am_state idx | am_variable idx | am_equation idx | am_areequivalent V V | aeq_dependency idx | aeq_nlasibling idx
+//   aeq_variable idx | avar_equation idx
+//   gen_setprofile_null | gen_setmodel_null | gen_equationcode_null | gen_equationcode_null2
+//   val_validate M | pr_print M | log_issue idx | log_error idx | log_warning idx | log_message idx
 #pragma once
+
+#include <functional>
+#include <map>
 #include <string>
 #include <vector>
-namespace verif { namespace c09 {
-inline int runBadArg(const std::vector<std::string> &) { return 0; }
-}}
+
+#include <libcellml>
+
+#include "dump.hpp"
+#include "forkrun.hpp"
+#include "script.hpp"
+#include "snapshot.hpp"
+
+namespace verif {
+namespace c09 {
+
+struct Services
+{
+    libcellml::AnnotatorPtr ann;
+    libcellml::ImporterPtr imp;
+    libcellml::AnalyserPtr an;
+    libcellml::AnalyserModelPtr am;
+    libcellml::AnalyserExternalVariablePtr ev;
+    libcellml::ValidatorPtr val;
+    libcellml::PrinterPtr pr;
+    libcellml::GeneratorPtr gen;
+    libcellml::GeneratorProfilePtr prof;
+    libcellml::LoggerPtr last; // the service the last call went to
+};
+
+inline std::string fullDump(Interp &in)
+{
+    using namespace libcellml;
+    std::string out = dumpStructure(in);
+    for (size_t s = 0; s < in.slots.size(); ++s) {
+        const Slot &sl = in.slots[s];
+        if (sl.kind == Kind::Empty || sl.p == nullptr) {
+            continue;
+        }
+        out += " {" + std::to_string(s) + " ";
+        switch (sl.kind) {
+        case Kind::Model: out += dumpModel(std::static_pointer_cast<Model>(sl.p), false, false); break;
+        case Kind::Component: out += dumpComponent(std::static_pointer_cast<Component>(sl.p), false); break;
+        case Kind::Variable: out += dumpVariable(std::static_pointer_cast<Variable>(sl.p)); break;
+        case Kind::Units: out += dumpUnits(std::static_pointer_cast<Units>(sl.p), false); break;
+        case Kind::Reset: out += dumpReset(std::static_pointer_cast<Reset>(sl.p)); break;
+        case Kind::ImportSource: {
+            auto is = std::static_pointer_cast<ImportSource>(sl.p);
+            out += "(importsource " + dq(is->url()) + " " + dq(is->id()) + ")";
+            break;
+        }
+        case Kind::Empty: break;
+        }
+        out += "}";
+    }
+    return out;
+}
+
+using SvcHandler = std::function<std::string(Interp &, Services &, Interp::Args &)>;
+
+inline std::string rbool(bool b)
+{
+    return b ? "true" : "false";
+}
+
+inline const std::map<std::string, SvcHandler> &svcCommands()
+{
+    using namespace libcellml;
+    static std::map<std::string, SvcHandler> m;
+    if (!m.empty()) {
+        return m;
+    }
+    auto anyItem = [](Interp &in, const AnyCellmlElementPtr &it) -> std::string {
+        if (it == nullptr) {
+            return "null";
+        }
+        return "item" + std::to_string(int(it->type()));
+    };
+    auto et = [](Interp::Args &a, size_t i) { return static_cast<CellmlElementType>(a.integer(i)); };
+
+    m["svc"] = [](Interp &, Services &s, Interp::Args &) {
+        s.ann = Annotator::create();
+        s.imp = Importer::create();
+        s.an = Analyser::create();
+        s.val = Validator::create();
+        s.pr = Printer::create();
+        s.gen = Generator::create();
+        s.prof = GeneratorProfile::create();
+        return std::string("-");
+    };
+    m["ann_setmodel"] = [](Interp &, Services &s, Interp::Args &a) { s.last = s.ann; auto x = a.mq(1); s.ann->setModel(x); return std::string("-"); };
+    m["an_analyse"] = [](Interp &, Services &s, Interp::Args &a) {
+        s.last = s.an;
+        auto x = a.mq(1);
+        s.an->analyseModel(x);
+        s.am = s.an->model();
+        if (s.am == nullptr) {
+            return std::string("null");
+        }
+        return std::string("type") + std::to_string(int(s.am->type()));
+    };
+    m["ev_create"] = [](Interp &, Services &s, Interp::Args &a) {
+        auto v = a.vq(1);
+        s.ev = AnalyserExternalVariable::create(v);
+        return std::string(s.ev == nullptr ? "null" : "-");
+    };
+    m["an_addext"] = [](Interp &, Services &s, Interp::Args &) { s.last = s.an; return rbool(s.an->addExternalVariable(s.ev)); };
+
+    // ---- Annotator getters by id
+    auto reg2 = [&](const std::string &name, std::function<std::string(Interp &, Services &, const std::string &)> f1,
+                    std::function<std::string(Interp &, Services &, const std::string &, size_t)> f2) {
+        m["ann_" + name] = [f1, f2](Interp &in, Services &s, Interp::Args &a) {
+            s.last = s.ann;
+            std::string id = a.str(1);
+            return a.has(2) ? f2(in, s, id, a.size(2)) : f1(in, s, id);
+        };
+    };
+    reg2("item", [anyItem](Interp &in, Services &s, const std::string &id) { return anyItem(in, s.ann->item(id)); },
+         [anyItem](Interp &in, Services &s, const std::string &id, size_t i) { return anyItem(in, s.ann->item(id, i)); });
+#define C09_GETTER(NAME, METHOD)                                                                                        \
+    reg2(NAME, [](Interp &in, Services &s, const std::string &id) { return in.ref(s.ann->METHOD(id)); },               \
+         [](Interp &in, Services &s, const std::string &id, size_t i) { return in.ref(s.ann->METHOD(id, i)); })
+    C09_GETTER("component", component);
+    C09_GETTER("componentencapsulation", componentEncapsulation);
+    C09_GETTER("encapsulation", encapsulation);
+    C09_GETTER("variable", variable);
+    C09_GETTER("reset", reset);
+    C09_GETTER("model", model);
+    C09_GETTER("importsource", importSource);
+    C09_GETTER("units", units);
+    C09_GETTER("testvalue", testValue);
+    C09_GETTER("resetvalue", resetValue);
+#undef C09_GETTER
+    auto pairTok = [](const VariablePairPtr &p) { return std::string(p == nullptr ? "null" : (p->isValid() ? "pair" : "invalidpair")); };
+    reg2("mapvariables", [pairTok](Interp &, Services &s, const std::string &id) { return pairTok(s.ann->mapVariables(id)); },
+         [pairTok](Interp &, Services &s, const std::string &id, size_t i) { return pairTok(s.ann->mapVariables(id, i)); });
+    reg2("connection", [pairTok](Interp &, Services &s, const std::string &id) { return pairTok(s.ann->connection(id)); },
+         [pairTok](Interp &, Services &s, const std::string &id, size_t i) { return pairTok(s.ann->connection(id, i)); });
+    auto uiTok = [](const UnitsItemPtr &p) { return std::string(p == nullptr ? "null" : (p->isValid() ? "unitsitem" : "invalidunitsitem")); };
+    reg2("unitsitem", [uiTok](Interp &, Services &s, const std::string &id) { return uiTok(s.ann->unitsItem(id)); },
+         [uiTok](Interp &, Services &s, const std::string &id, size_t i) { return uiTok(s.ann->unitsItem(id, i)); });
+
+    m["ann_assignallids"] = [](Interp &, Services &s, Interp::Args &a) { s.last = s.ann; auto x = a.mq(1); return rbool(s.ann->assignAllIds(x)); };
+    m["ann_clearallids"] = [](Interp &, Services &s, Interp::Args &a) { s.last = s.ann; auto x = a.mq(1); s.ann->clearAllIds(x); return std::string("-"); };
+    m["ann_isunique"] = [](Interp &, Services &s, Interp::Args &a) { s.last = s.ann; return rbool(s.ann->isUnique(a.str(1))); };
+    m["ann_items"] = [](Interp &, Services &s, Interp::Args &a) { s.last = s.ann; return std::to_string(s.ann->items(a.str(1)).size()); };
+    m["ann_itemcount"] = [](Interp &, Services &s, Interp::Args &a) { s.last = s.ann; return std::to_string(s.ann->itemCount(a.str(1))); };
+    m["ann_ids"] = [](Interp &, Services &s, Interp::Args &) { s.last = s.ann; return std::to_string(s.ann->ids().size()); };
+    m["ann_duplicateids"] = [](Interp &, Services &s, Interp::Args &) { s.last = s.ann; return std::to_string(s.ann->duplicateIds().size()); };
+    m["ann_assignid_model"] = [et](Interp &, Services &s, Interp::Args &a) { s.last = s.ann; auto x = a.mq(1); return Interp::rs(s.ann->assignId(x, et(a, 2))); };
+    m["ann_assignid_component"] = [et](Interp &, Services &s, Interp::Args &a) { s.last = s.ann; auto x = a.cq(1); return Interp::rs(s.ann->assignId(x, et(a, 2))); };
+    m["ann_assignid_importsource"] = [](Interp &, Services &s, Interp::Args &a) { s.last = s.ann; auto x = a.iq(1); return Interp::rs(s.ann->assignId(x)); };
+    m["ann_assignid_reset"] = [et](Interp &, Services &s, Interp::Args &a) { s.last = s.ann; auto x = a.rq(1); return Interp::rs(s.ann->assignId(x, et(a, 2))); };
+    m["ann_assignid_units"] = [](Interp &, Services &s, Interp::Args &a) { s.last = s.ann; auto x = a.uq(1); return Interp::rs(s.ann->assignId(x)); };
+    m["ann_assignid_unitsitem"] = [](Interp &, Services &s, Interp::Args &a) {
+        s.last = s.ann;
+        auto x = a.uq(1);
+        auto it = UnitsItem::create(x, a.size(2));
+        return Interp::rs(s.ann->assignId(it));
+    };
+    m["ann_assignid_unitsitem_null"] = [](Interp &, Services &s, Interp::Args &) { s.last = s.ann; return Interp::rs(s.ann->assignId(UnitsItemPtr())); };
+    m["ann_assignid_variable"] = [](Interp &, Services &s, Interp::Args &a) { s.last = s.ann; auto x = a.vq(1); return Interp::rs(s.ann->assignId(x)); };
+    m["ann_assignid_pair"] = [et](Interp &, Services &s, Interp::Args &a) {
+        s.last = s.ann;
+        auto v = a.vq(1);
+        auto w = a.vq(2);
+        auto p = VariablePair::create(v, w);
+        return Interp::rs(s.ann->assignId(p, et(a, 3)));
+    };
+    m["ann_assignid_pair_null"] = [et](Interp &, Services &s, Interp::Args &a) { s.last = s.ann; return Interp::rs(s.ann->assignId(VariablePairPtr(), et(a, 1))); };
+    m["ann_assignid_vv"] = [et](Interp &, Services &s, Interp::Args &a) { s.last = s.ann; auto v = a.vq(1); auto w = a.vq(2); return Interp::rs(s.ann->assignId(v, w, et(a, 3))); };
+    m["ann_assignid_unit"] = [](Interp &, Services &s, Interp::Args &a) { s.last = s.ann; auto x = a.uq(1); return Interp::rs(s.ann->assignId(x, a.size(2))); };
+    m["ann_assignid_any_null"] = [](Interp &, Services &s, Interp::Args &) { s.last = s.ann; return Interp::rs(s.ann->assignId(AnyCellmlElementPtr())); };
+    m["ann_assignid_any_item"] = [](Interp &, Services &s, Interp::Args &a) {
+        // the item currently found under an id, handed back to assignId
+        s.last = s.ann;
+        auto it = s.ann->item(a.str(1));
+        return Interp::rs(s.ann->assignId(it));
+    };
+
+    // ---- Importer
+    m["imp_flatten"] = [](Interp &in, Services &s, Interp::Args &a) { s.last = s.imp; auto x = a.mq(1); return in.ref(s.imp->flattenModel(x)); };
+    m["imp_resolve"] = [](Interp &, Services &s, Interp::Args &a) { s.last = s.imp; auto x = a.mq(1); return rbool(s.imp->resolveImports(x, a.str(2))); };
+    m["imp_library_n"] = [](Interp &in, Services &s, Interp::Args &a) { s.last = s.imp; return in.ref(s.imp->library(a.str(1))); };
+    m["imp_library_i"] = [](Interp &in, Services &s, Interp::Args &a) { s.last = s.imp; return in.ref(s.imp->library(a.size(1))); };
+    m["imp_key"] = [](Interp &, Services &s, Interp::Args &a) { s.last = s.imp; return Interp::rs(s.imp->key(a.size(1))); };
+    m["imp_addmodel"] = [](Interp &, Services &s, Interp::Args &a) { s.last = s.imp; auto x = a.mq(1); return rbool(s.imp->addModel(x, a.str(2))); };
+    m["imp_replacemodel"] = [](Interp &, Services &s, Interp::Args &a) { s.last = s.imp; auto x = a.mq(1); return rbool(s.imp->replaceModel(x, a.str(2))); };
+    m["imp_clearimports"] = [](Interp &, Services &s, Interp::Args &a) { s.last = s.imp; auto x = a.mq(1); s.imp->clearImports(x); return std::string("-"); };
+    m["imp_addimportsource"] = [](Interp &, Services &s, Interp::Args &a) { s.last = s.imp; auto x = a.iq(1); return rbool(s.imp->addImportSource(x)); };
+    m["imp_importsource"] = [](Interp &in, Services &s, Interp::Args &a) { s.last = s.imp; return in.ref(s.imp->importSource(a.size(1))); };
+    m["imp_removeimportsource_i"] = [](Interp &, Services &s, Interp::Args &a) { s.last = s.imp; return rbool(s.imp->removeImportSource(a.size(1))); };
+    m["imp_removeimportsource_p"] = [](Interp &, Services &s, Interp::Args &a) { s.last = s.imp; auto x = a.iq(1); return rbool(s.imp->removeImportSource(x)); };
+    m["imp_hasimportsource"] = [](Interp &, Services &s, Interp::Args &a) { s.last = s.imp; auto x = a.iq(1); return rbool(s.imp->hasImportSource(x)); };
+
+    // ---- Analyser and its external variables
+    auto evTok = [](const AnalyserExternalVariablePtr &p) { return std::string(p == nullptr ? "null" : "extvar"); };
+    m["an_addext_null"] = [](Interp &, Services &s, Interp::Args &) { s.last = s.an; return rbool(s.an->addExternalVariable(nullptr)); };
+    m["an_addext_v"] = [](Interp &, Services &s, Interp::Args &a) {
+        s.last = s.an;
+        auto v = a.vq(1);
+        return rbool(s.an->addExternalVariable(AnalyserExternalVariable::create(v)));
+    };
+    m["an_removeext_i"] = [](Interp &, Services &s, Interp::Args &a) { s.last = s.an; return rbool(s.an->removeExternalVariable(a.size(1))); };
+    m["an_removeext_m"] = [](Interp &, Services &s, Interp::Args &a) { s.last = s.an; auto x = a.mq(1); return rbool(s.an->removeExternalVariable(x, a.str(2), a.str(3))); };
+    m["an_removeext_p"] = [](Interp &, Services &s, Interp::Args &a) {
+        s.last = s.an;
+        auto v = a.vq(1);
+        return rbool(s.an->removeExternalVariable(v == nullptr ? nullptr : AnalyserExternalVariable::create(v)));
+    };
+    m["an_containsext_m"] = [](Interp &, Services &s, Interp::Args &a) { s.last = s.an; auto x = a.mq(1); return rbool(s.an->containsExternalVariable(x, a.str(2), a.str(3))); };
+    m["an_containsext_p"] = [](Interp &, Services &s, Interp::Args &a) {
+        s.last = s.an;
+        auto v = a.vq(1);
+        return rbool(s.an->containsExternalVariable(v == nullptr ? nullptr : AnalyserExternalVariable::create(v)));
+    };
+    m["an_ext_i"] = [evTok](Interp &, Services &s, Interp::Args &a) { s.last = s.an; return evTok(s.an->externalVariable(a.size(1))); };
+    m["an_ext_m"] = [evTok](Interp &, Services &s, Interp::Args &a) { s.last = s.an; auto x = a.mq(1); return evTok(s.an->externalVariable(x, a.str(2), a.str(3))); };
+    m["ev_create_tmp"] = [](Interp &, Services &s, Interp::Args &a) {
+        auto v = a.vq(1);
+        auto e = AnalyserExternalVariable::create(v);
+        if (e == nullptr) {
+            return std::string("null");
+        }
+        return std::string(e->variable() == nullptr ? "extvar(null)" : "extvar");
+    };
+    m["ev_adddep"] = [](Interp &, Services &s, Interp::Args &a) { auto v = a.vq(1); return rbool(s.ev->addDependency(v)); };
+    m["ev_removedep_i"] = [](Interp &, Services &s, Interp::Args &a) { return rbool(s.ev->removeDependency(a.size(1))); };
+    m["ev_removedep_m"] = [](Interp &, Services &s, Interp::Args &a) { auto x = a.mq(1); return rbool(s.ev->removeDependency(x, a.str(2), a.str(3))); };
+    m["ev_removedep_p"] = [](Interp &, Services &s, Interp::Args &a) { auto v = a.vq(1); return rbool(s.ev->removeDependency(v)); };
+    m["ev_containsdep_m"] = [](Interp &, Services &s, Interp::Args &a) { auto x = a.mq(1); return rbool(s.ev->containsDependency(x, a.str(2), a.str(3))); };
+    m["ev_containsdep_p"] = [](Interp &, Services &s, Interp::Args &a) { auto v = a.vq(1); return rbool(s.ev->containsDependency(v)); };
+    m["ev_dep_i"] = [](Interp &in, Services &s, Interp::Args &a) { return in.ref(s.ev->dependency(a.size(1))); };
+    m["ev_dep_m"] = [](Interp &in, Services &s, Interp::Args &a) { auto x = a.mq(1); return in.ref(s.ev->dependency(x, a.str(2), a.str(3))); };
+
+    // ---- AnalyserModel queries
+    auto nn = [](const void *p) { return std::string(p == nullptr ? "null" : "obj"); };
+    m["am_state"] = [nn](Interp &, Services &s, Interp::Args &a) { return nn(s.am->state(a.size(1)).get()); };
+    m["am_variable"] = [nn](Interp &, Services &s, Interp::Args &a) { return nn(s.am->variable(a.size(1)).get()); };
+    m["am_equation"] = [nn](Interp &, Services &s, Interp::Args &a) { return nn(s.am->equation(a.size(1)).get()); };
+    m["am_areequivalent"] = [](Interp &, Services &s, Interp::Args &a) { auto v = a.vq(1); auto w = a.vq(2); return rbool(s.am->areEquivalentVariables(v, w)); };
+    m["aeq_dependency"] = [nn](Interp &, Services &s, Interp::Args &a) { return nn(s.am->equation(0)->dependency(a.size(1)).get()); };
+    m["aeq_nlasibling"] = [nn](Interp &, Services &s, Interp::Args &a) { return nn(s.am->equation(0)->nlaSibling(a.size(1)).get()); };
+    m["aeq_variable"] = [nn](Interp &, Services &s, Interp::Args &a) { return nn(s.am->equation(0)->variable(a.size(1)).get()); };
+    m["avar_equation"] = [nn](Interp &, Services &s, Interp::Args &a) { return nn(s.am->state(0)->equation(a.size(1)).get()); };
+
+    // ---- Generator setters
+    m["gen_setprofile_null"] = [](Interp &, Services &s, Interp::Args &) { s.gen->setProfile(nullptr); return Interp::rs(s.gen->implementationCode()).substr(0, 1); };
+    m["gen_setmodel_null"] = [](Interp &, Services &s, Interp::Args &) { s.gen->setModel(nullptr); return Interp::rs(s.gen->implementationCode()).substr(0, 1); };
+    m["gen_setmodel_am"] = [](Interp &, Services &s, Interp::Args &) { s.gen->setModel(s.am); return std::string(s.gen->implementationCode().empty() ? "s" : "code"); };
+    m["gen_equationcode_null"] = [](Interp &, Services &, Interp::Args &) { return Interp::rs(Generator::equationCode(nullptr)); };
+    m["gen_equationcode_null2"] = [](Interp &, Services &, Interp::Args &) { return Interp::rs(Generator::equationCode(nullptr, nullptr)); };
+
+    // ---- value classes built from entities
+    m["unitsitem_create_null"] = [](Interp &, Services &, Interp::Args &a) { auto it = UnitsItem::create(nullptr, a.size(1)); return rbool(it != nullptr && it->isValid()); };
+    m["unitsitem_create"] = [](Interp &, Services &, Interp::Args &a) { auto u = a.uq(1); auto it = UnitsItem::create(u, a.size(2)); return rbool(it != nullptr && it->isValid()); };
+    m["variablepair_create"] = [](Interp &, Services &, Interp::Args &a) { auto v = a.vq(1); auto w = a.vq(2); auto p = VariablePair::create(v, w); return rbool(p != nullptr && p->isValid()); };
+    m["ast_setleft_null"] = [](Interp &, Services &, Interp::Args &) { auto t = AnalyserEquationAst::create(); t->setLeftChild(nullptr); return std::string(t->leftChild() == nullptr ? "null" : "obj"); };
+    m["ast_setright_null"] = [](Interp &, Services &, Interp::Args &) { auto t = AnalyserEquationAst::create(); t->setRightChild(nullptr); return std::string(t->rightChild() == nullptr ? "null" : "obj"); };
+    m["ast_setparent_null"] = [](Interp &, Services &, Interp::Args &) { auto t = AnalyserEquationAst::create(); t->setParent(nullptr); return std::string(t->parent() == nullptr ? "null" : "obj"); };
+    m["ast_setvariable"] = [](Interp &in, Services &, Interp::Args &a) { auto t = AnalyserEquationAst::create(); auto v = a.vq(1); t->setVariable(v); return in.ref(t->variable()); };
+    m["ast_swap_null"] = [](Interp &, Services &, Interp::Args &) { auto t = AnalyserEquationAst::create(); t->swapLeftAndRightChildren(); return std::string("-"); };
+
+    // ---- Validator, Printer, Logger
+    m["val_validate"] = [](Interp &, Services &s, Interp::Args &a) { s.last = s.val; auto x = a.mq(1); s.val->validateModel(x); return std::to_string(s.val->issueCount()); };
+    m["pr_print"] = [](Interp &, Services &s, Interp::Args &a) { s.last = s.pr; auto x = a.mq(1); return std::string(s.pr->printModel(x).empty() ? "s" : "text"); };
+    m["log_issue"] = [nn](Interp &, Services &s, Interp::Args &a) { return nn(s.val->issue(a.size(1)).get()); };
+    m["log_issue_an"] = [nn](Interp &, Services &s, Interp::Args &a) { return nn(s.an->issue(a.size(1)).get()); };
+    m["log_error"] = [nn](Interp &, Services &s, Interp::Args &a) { return nn(s.val->error(a.size(1)).get()); };
+    m["log_warning"] = [nn](Interp &, Services &s, Interp::Args &a) { return nn(s.val->warning(a.size(1)).get()); };
+    m["log_message"] = [nn](Interp &, Services &s, Interp::Args &a) { return nn(s.val->message(a.size(1)).get()); };
+    return m;
+}
+
+inline std::string execAny(Interp &in, Services &svc, const std::string &line)
+{
+    Interp::Args a {in, {}};
+    std::string cur;
+    for (char c : line) {
+        if (c == ' ' || c == '\t') {
+            if (!cur.empty()) {
+                a.t.push_back(cur);
+                cur.clear();
+            }
+        } else {
+            cur.push_back(c);
+        }
+    }
+    if (!cur.empty()) {
+        a.t.push_back(cur);
+    }
+    if (a.t.empty()) {
+        return "ERR(empty-line)";
+    }
+    const auto &tab = svcCommands();
+    auto it = tab.find(a.t[0]);
+    if (it == tab.end()) {
+        return in.exec(line);
+    }
+    try {
+        return it->second(in, svc, a);
+    } catch (const ScriptError &e) {
+        return "ERR(" + e.why + ")";
+    } catch (const std::exception &e) {
+        return std::string("THROW(") + typeid(e).name() + ")";
+    }
+}
+
+inline std::string runBadArgCase(const std::string &line)
+{
+    auto bar = line.find('|');
+    if (bar == std::string::npos) {
+        return "ERR(no-call)";
+    }
+    Interp in;
+    Services svc;
+    for (const auto &cmd : splitws(line.substr(0, bar), ';')) {
+        if (!cmd.empty()) {
+            std::string r = execAny(in, svc, cmd);
+            if (r.rfind("ERR", 0) == 0) {
+                return "ERR(setup:" + cmd + ":" + r + ")";
+            }
+        }
+    }
+    svc.last = nullptr;
+    auto issueText = [](const libcellml::LoggerPtr &l) {
+        std::string t;
+        if (l != nullptr) {
+            for (size_t i = 0; i < l->issueCount(); ++i) {
+                t += l->issue(i)->description() + "\n";
+            }
+        }
+        return t;
+    };
+    std::vector<libcellml::LoggerPtr> loggers {svc.ann, svc.imp, svc.an, svc.val, svc.pr};
+    std::vector<std::string> issuesBefore;
+    for (const auto &l : loggers) {
+        issuesBefore.push_back(issueText(l));
+    }
+    std::string before = fullDump(in);
+    size_t slotsBefore = in.slots.size();
+    std::string ret = execAny(in, svc, line.substr(bar + 1));
+    // objects a call returned are adopted into new slots: leave them out of the comparison
+    in.slots.resize(slotsBefore);
+    std::string after = fullDump(in);
+    // issues=<n>: the service the call went to holds n issues AND they are not the ones it held before the call
+    std::string issues = "-";
+    if (svc.last != nullptr) {
+        size_t n = svc.last->issueCount();
+        for (size_t i = 0; i < loggers.size(); ++i) {
+            if (loggers[i] == svc.last && issueText(svc.last) == issuesBefore[i]) {
+                n = 0;
+            }
+        }
+        issues = std::to_string(n);
+    }
+    return ret + " " + (before == after ? "same" : "CHANGED") + " issues=" + issues;
+}
+
+inline std::vector<std::string> listCommands()
+{
+    std::vector<std::string> out;
+    for (const auto &kv : svcCommands()) {
+        out.push_back(kv.first);
+    }
+    return out;
+}
+
+inline int runBadArg(const std::vector<std::string> &lines)
+{
+    return runCases(lines, [](const std::string &c) { return runBadArgCase(c); }, 30, 16);
+}
+
+} // namespace c09
+} // namespace verif
